@@ -241,10 +241,305 @@ fn probe(rng: &mut Rng, k: u64) -> Op {
     }
 }
 
+/// Knobs of the concurrent-clients (P) family.
+#[derive(Clone, Debug)]
+pub struct PProfile {
+    pub clients: (u64, u64),
+    pub keys: (u64, u64),
+    pub ops: (u64, u64),
+    /// small max_cost so that evictions and rejections happen
+    pub over_capacity_pct: u64,
+    pub ttl_pct: u64,
+    pub collide_pct: u64,
+    pub validator_pct: u64,
+    pub get_mut_write: bool,
+    pub if_present_pct: u64,
+    pub remove_pct: u64,
+    pub wait_pct: u64,
+    pub lookup_pct: u64,
+    pub chaos_clear_pct: u64,
+    pub chaos_close_pct: u64,
+    pub chaos_umc_pct: u64,
+    pub inline_clear_pct: u64,
+    pub small_buffer_pct: u64,
+    pub metrics_on: bool,
+    pub sleeps: bool,
+    pub faulty_pct: u64,
+    pub finale_close_pct: u64,
+    pub finale_drop_pct: u64,
+    pub barrier_every: (u64, u64),
+    pub coster_pct: u64,
+    pub exit_only_cb_pct: u64,
+    pub wide_config: bool,
+}
+
+impl Default for PProfile {
+    fn default() -> Self {
+        PProfile {
+            clients: (2, 4),
+            keys: (2, 8),
+            ops: (4, 24),
+            over_capacity_pct: 50,
+            ttl_pct: 25,
+            collide_pct: 10,
+            validator_pct: 0,
+            get_mut_write: false,
+            if_present_pct: 8,
+            remove_pct: 15,
+            wait_pct: 3,
+            lookup_pct: 30,
+            chaos_clear_pct: 0,
+            chaos_close_pct: 0,
+            chaos_umc_pct: 0,
+            inline_clear_pct: 0,
+            small_buffer_pct: 0,
+            metrics_on: false,
+            sleeps: true,
+            faulty_pct: 30,
+            finale_close_pct: 0,
+            finale_drop_pct: 0,
+            barrier_every: (2, 7),
+            coster_pct: 20,
+            exit_only_cb_pct: 0,
+            wide_config: false,
+        }
+    }
+}
+
+pub fn profile_for(prop: &str) -> PProfile {
+    let d = PProfile::default();
+    match prop {
+        "C01" => PProfile { over_capacity_pct: 85, chaos_umc_pct: 50, chaos_clear_pct: 10, if_present_pct: 12, collide_pct: 5, ..d },
+        "C02" => PProfile { keys: (1, 5), get_mut_write: true, chaos_clear_pct: 25, collide_pct: 30, lookup_pct: 40, validator_pct: 15, ..d },
+        "C06" => PProfile { chaos_clear_pct: 30, over_capacity_pct: 60, ttl_pct: 35, ..d },
+        "C07" => PProfile { clients: (1, 3), keys: (4, 16), over_capacity_pct: 100, lookup_pct: 50, ttl_pct: 5, remove_pct: 5, chaos_umc_pct: 20, ops: (10, 40), collide_pct: 0, ..d },
+        "C08" => PProfile { chaos_clear_pct: 15, over_capacity_pct: 60, exit_only_cb_pct: 20, ttl_pct: 30, ..d },
+        "C10" => PProfile { wait_pct: 25, chaos_clear_pct: 35, chaos_close_pct: 35, small_buffer_pct: 50, lookup_pct: 10, ops: (3, 12), ..d },
+        "C11" => PProfile { chaos_clear_pct: 70, inline_clear_pct: 10, metrics_on: true, ops: (3, 14), ..d },
+        "C12" => PProfile { chaos_close_pct: 70, finale_close_pct: 50, finale_drop_pct: 40, wait_pct: 8, ops: (2, 10), small_buffer_pct: 30, ..d },
+        "C13" => PProfile { lookup_pct: 75, keys: (1, 12), wide_config: true, chaos_clear_pct: 15, over_capacity_pct: 20, ops: (8, 40), remove_pct: 3, ..d },
+        "C15" => PProfile { lookup_pct: 75, keys: (1, 8), wide_config: true, metrics_on: true, ops: (8, 40), remove_pct: 3, chaos_close_pct: 15, ..d },
+        "C17" => PProfile { metrics_on: true, inline_clear_pct: 10, over_capacity_pct: 60, small_buffer_pct: 30, ..d },
+        "C18" => PProfile { collide_pct: 100, keys: (2, 6), get_mut_write: true, ..d },
+        "C20" => PProfile { wide_config: true, ops: (3, 14), metrics_on: false, over_capacity_pct: 50, ..d },
+        _ => d,
+    }
+}
+
+fn chaos_step(rng: &mut Rng) -> u64 {
+    match rng.below(4) {
+        0 => rng.range(1, 40),
+        1 => rng.range(20, 200),
+        _ => rng.range(50, 900),
+    }
+}
+
+/// P family: 1–4 client tasks with independent scripts over a small shared key universe,
+/// optional chaos tasks, global quiescent barriers every few operations.
+pub fn gen_p_family(prop: &str, seed: u64, pf: &PProfile) -> Plan {
+    let mut rng = Rng::new(seed ^ 0x9a_77);
+    let flavor = pick_flavor(&mut rng);
+    let faulty = rng.chance(pf.faulty_pct, 100);
+    let sim = sim_plan(&mut rng, faulty);
+    let n_clients = rng.range(pf.clients.0, pf.clients.1) as usize;
+    let n_keys = rng.range(pf.keys.0, pf.keys.1) as usize;
+    let mut cfg = roomy_cfg(&mut rng, flavor);
+    cfg.metrics = pf.metrics_on || rng.chance(1, 3);
+    let mut tags: Vec<String> = vec![];
+    let collide = rng.chance(pf.collide_pct, 100);
+    let universe: Vec<u64> = if collide {
+        let m = rng.range(1, 4);
+        cfg.keys = KeyMode::Collide { m };
+        tags.push("collide".into());
+        // keys 1.. so that several share an index
+        let mut u: Vec<u64> = Vec::new();
+        while u.len() < n_keys {
+            let k = rng.range(1, 12);
+            if !u.contains(&k) {
+                u.push(k);
+            }
+        }
+        u
+    } else {
+        gen_universe(&mut rng, n_keys)
+    };
+    if rng.chance(pf.validator_pct, 100) {
+        cfg.validator = Validator::Mod { m: rng.range(2, 4), r: rng.below(2) };
+        tags.push("validator".into());
+    }
+    cfg.coster = rng.chance(pf.coster_pct, 100);
+    if rng.chance(pf.exit_only_cb_pct, 100) {
+        cfg.callback = CallbackMode::ExitOnly;
+    }
+    let over = rng.chance(pf.over_capacity_pct, 100);
+    let item = if cfg.ignore_internal_cost { 0 } else { 72 };
+    let max_item_cost: i64 = rng.range(1, 12) as i64;
+    if over {
+        // room for roughly 1..n_keys entries
+        let slots = rng.range(1, (n_keys as u64).max(2)) as i64;
+        cfg.max_cost = slots * (item + max_item_cost / 2 + 1) + rng.below(5) as i64;
+        tags.push("over_capacity".into());
+    } else {
+        tags.push("under_capacity".into());
+    }
+    if pf.wide_config {
+        cfg.num_counters = match rng.below(10) {
+            0..=5 => rng.range(1, 70) as usize,
+            6 => 1,
+            7 => 2,
+            _ => *rng.pick(&[128usize, 1000, 4096, 100_000]),
+        };
+        cfg.buffer_items = *rng.pick(&[0usize, 1, 1, 2, 3, 4, 8, 64]);
+        cfg.cleanup_ms = *rng.pick(&[1u64, 10, 100, 500, 2000, 5000]);
+        if prop == "C20" {
+            cfg.max_cost = match rng.below(12) {
+                0 => -(rng.range(1, 100) as i64),
+                1 => 1,
+                2 => 0,
+                3..=6 => cfg.max_cost,
+                _ => rng.range(1, 400) as i64,
+            };
+            cfg.buffer_size = match rng.below(12) {
+                0 => 0,
+                1..=3 => 1,
+                4..=6 => rng.range(2, 8) as usize,
+                _ => cfg.buffer_size,
+            };
+            if rng.chance(1, 25) {
+                cfg.num_counters = 0;
+            }
+        }
+    }
+    if rng.chance(pf.small_buffer_pct, 100) {
+        cfg.buffer_size = rng.range(1, 4) as usize;
+        tags.push("small_buffer".into());
+    }
+    let total_ops = rng.range(pf.ops.0, pf.ops.1);
+    let barrier_every = rng.range(pf.barrier_every.0, pf.barrier_every.1);
+    let phases = (total_ops / barrier_every).max(1);
+    let mut clients: Vec<Vec<Op>> = vec![Vec::new(); n_clients];
+    let mut writes = 0usize;
+    let mut has_clear = false;
+    for ph in 0..phases {
+        for (ci, script) in clients.iter_mut().enumerate() {
+            let n = rng.range(1, barrier_every.max(1));
+            for _ in 0..n {
+                let k = *rng.pick(&universe);
+                let r = rng.below(100);
+                let mut acc = 0;
+                let mut pickp = |p: u64| {
+                    acc += p;
+                    r < acc
+                };
+                if pickp(pf.lookup_pct) {
+                    script.push(match rng.below(10) {
+                        0..=6 => Op::Get { k, hold: if rng.chance(1, 6) { rng.range(1, 5) as u32 } else { 0 } },
+                        7 => Op::GetTtl { k },
+                        _ => Op::GetMut { k, write: pf.get_mut_write && rng.chance(1, 2), size: rng.range(1, 9) as u32, hold: if rng.chance(1, 6) { rng.range(1, 3) as u32 } else { 0 } },
+                    });
+                } else if pickp(pf.remove_pct) {
+                    script.push(Op::Remove { k });
+                    writes += 1;
+                } else if pickp(pf.if_present_pct) {
+                    script.push(Op::InsertIfPresent { k, cost: if cfg.coster && rng.chance(1, 3) { 0 } else { rng.range(1, max_item_cost as u64) as i64 }, size: rng.range(1, 9) as u32 });
+                    writes += 1;
+                } else if pickp(pf.wait_pct) {
+                    script.push(Op::Wait);
+                } else if pickp(pf.inline_clear_pct) && ci == 0 {
+                    script.push(Op::Clear);
+                    has_clear = true;
+                } else if pf.sleeps && rng.chance(4, 100) {
+                    script.push(Op::Sleep { ns: rng.range(1, 2500) * MS });
+                } else {
+                    let ttl = if rng.chance(pf.ttl_pct, 100) { gen_ttl_value(&mut rng).min(20 * SEC) } else { 0 };
+                    let cost = if cfg.coster && rng.chance(1, 3) {
+                        0
+                    } else if over && rng.chance(1, 12) {
+                        cfg.max_cost + rng.range(0, 3) as i64 // near/over the whole capacity
+                    } else {
+                        rng.range(1, max_item_cost as u64) as i64
+                    };
+                    script.push(Op::Insert { k, cost, ttl_ns: ttl, size: rng.range(1, 9) as u32 });
+                    writes += 1;
+                }
+            }
+            if ph + 1 < phases || rng.chance(1, 2) {
+                script.push(Op::Barrier);
+            }
+        }
+        // keep barrier counts aligned
+        let maxb = clients.iter().map(|c| c.iter().filter(|o| matches!(o, Op::Barrier)).count()).max().unwrap_or(0);
+        for c in clients.iter_mut() {
+            while c.iter().filter(|o| matches!(o, Op::Barrier)).count() < maxb {
+                c.push(Op::Barrier);
+            }
+        }
+    }
+    if pf.sleeps && rng.chance(1, 3) {
+        // let TTLs pass at the end
+        clients[0].push(Op::Sleep { ns: rng.range(1000, 6000) * MS });
+    }
+    let mut chaos = Vec::new();
+    if rng.chance(pf.chaos_clear_pct, 100) {
+        let n = rng.range(1, 2);
+        for _ in 0..n {
+            chaos.push(Chaos { at_step: chaos_step(&mut rng), op: Op::Clear });
+        }
+        has_clear = true;
+    }
+    if rng.chance(pf.chaos_umc_pct, 100) {
+        let n = rng.range(1, 3);
+        for _ in 0..n {
+            let v = match rng.below(4) {
+                0 => cfg.max_cost / 2 + 1,
+                1 => cfg.max_cost * 2,
+                2 => rng.range(1, 200) as i64,
+                _ => cfg.max_cost + rng.range(0, 80) as i64 - 40,
+            };
+            chaos.push(Chaos { at_step: chaos_step(&mut rng), op: Op::UpdateMaxCost { v: v.max(1) } });
+        }
+        tags.push("max_cost_changes".into());
+    }
+    if rng.chance(pf.chaos_close_pct, 100) {
+        let n = rng.range(1, 3);
+        for _ in 0..n {
+            chaos.push(Chaos { at_step: chaos_step(&mut rng), op: Op::Close });
+        }
+        tags.push("close".into());
+    }
+    if has_clear {
+        tags.push("clear".into());
+    }
+    let finale = {
+        let r = rng.below(100);
+        if r < pf.finale_close_pct {
+            Finale::Close
+        } else if r < pf.finale_close_pct + pf.finale_drop_pct {
+            Finale::DropAll
+        } else {
+            Finale::None
+        }
+    };
+    if !tags.iter().any(|t| t == "small_buffer") && !(prop == "C20" && cfg.buffer_size <= 8) {
+        cfg.buffer_size = cfg.buffer_size.max(writes + n_clients * 4 + 8);
+    }
+    if faulty {
+        tags.push("faulty".into());
+    }
+    if prop == "C10" {
+        tags.push("snap_at_wait".into());
+    }
+    if prop == "C20" {
+        tags.push("final_probe".into());
+    }
+    Plan { prop: prop.into(), family: "P".into(), seed, cfg, sim, clients, chaos, finale, universe, tags }
+}
+
 pub fn gen_plan(prop: &str, seed: u64, variant: u64) -> Plan {
     match prop {
         "C03" | "C04" => gen_ttl_family(prop, seed, variant % 4 == 3),
         "C05" => gen_ttl_family(prop, seed, variant % 2 == 1),
+        "C01" | "C02" | "C06" | "C07" | "C08" | "C10" | "C11" | "C12" | "C13" | "C15" | "C17" | "C18" | "C20" => gen_p_family(prop, seed, &profile_for(prop)),
         _ => gen_ttl_family(prop, seed, false),
     }
 }
